@@ -13,6 +13,7 @@ pub mod c08;
 pub mod c11;
 pub mod c12;
 pub mod c14;
+pub mod c15;
 pub mod evt;
 pub mod smoke;
 
@@ -31,6 +32,7 @@ pub fn dispatch(a: &ShardArgs) -> Result<(), String> {
         "c11" => c11::run(a),
         "c12" => c12::run(a),
         "c14" => c14::run(a),
+        "c15" => c15::run(a),
         "smoke" => smoke::run(a),
         other => Err(format!("unknown check {other}")),
     }
